@@ -840,7 +840,7 @@ def to_kraus_matrices_from_hs(
     eigens = [
         (eigen_val, eigen_vec)
         for (eigen_val, eigen_vec) in eigens
-        if not np.isclose(eigen_val, 0, atol=Settings.get_atol())
+        if not np.isclose(eigen_val, 0, atol=atol)
     ]
     # sort large eigenvalue order
     eigens = sorted(eigens, key=lambda x: x[0], reverse=True)
